@@ -851,7 +851,7 @@ func (e *env) dishonest(v compat.Verifier, count int) {
 		i := r.Intn(n)
 		sp := &specs[i]
 		kind := []string{"wrong-as-key", "uncertified-key", "forged-keyid-skid", "forged-keyid-ia", "short-cert", "late-cert",
-			"boundary-na", "boundary-nb", "ed25519-cert-named", "empty-skid", "wildcard-keyid-ia"}[r.Intn(11)]
+			"boundary-na", "boundary-nb", "ed25519-cert-named", "empty-skid", "wildcard-keyid-ia", "y10k-lifetime"}[r.Intn(12)]
 		otherIA := e.w.ases[(int(uint64(sp.ia))+1+r.Intn(10))%len(e.w.ases)]
 		for otherIA == sp.ia {
 			otherIA = e.w.ases[r.Intn(len(e.w.ases))]
@@ -905,6 +905,9 @@ func (e *env) dishonest(v compat.Verifier, count int) {
 					break
 				}
 			}
+		case "y10k-lifetime": // the lifetime crosses 9999-12-31T23:59:59Z: no certificate covers it
+			ts = 253402300799 - int64(r.Intn(300))
+			sp.exp = uint8(1 + r.Intn(255))
 		case "empty-skid":
 			sp.kidSK = nil
 		case "wildcard-keyid-ia":
